@@ -1,9 +1,24 @@
 """C04 -- exact arithmetic is mathematically exact at every magnitude (DESIGN.md section 3, C04).
 
-Oracle: Python int / Fraction.  Every case binds its operands (built by a chosen *route*: literal,
+Oracle: Python int / Fraction.  Every case binds its operands a, b, c (built by a chosen *route*: literal,
 arithmetic result, parsed text), applies one operation and prints
-    (result  (fixnum? result)  (eqv? result <expected literal>)  operand-a  operand-b)
+    (result  (fixnum? result)  (eqv? result <expected literal>)  a  b  c)
 so that a wrong value, a non-canonical representation and a *mutated operand* are all observable.
+
+Generators (all seeded):
+  * random: operation x operands from the boundary lattice or random up to 4000 bits, integers and ratios;
+  * crafted division: a = q*d + r with word patterns chosen to drive the quotient-estimate paths of
+    sexp_bignum_quot_rem (equal leading words, leading words below 2^32, estimate 0, overshoot);
+  * crafted multiplication: word-pattern operands of 1..14 words (every product of two bignums of >= 2 words is a
+    Karatsuba product in chibi, split at blen/2, so odd/even/unbalanced lengths and carries out of a1+a0 matter);
+  * crafted comparisons of ratios whose cross products are near the fixnum limits;
+  * (thorough) the full cross product of the boundary lattice, one multi-operation case per pair.
+
+Violation signature: {op, a, b, c, mode, operands, tag}
+  a/b/c     class of the operand: zero, +-fix, +-fixedge, fixmin, fixmax+1, +-big1, +-big2, +-bigN, +-ratio ("-" = unused)
+  mode      crash | error | unparsable-output | wrong-result | operand-mutated | not-canonical-fixnum | not-eqv-to-literal
+  operands  what the operands look like *after* the operation: intact | a-negated | b-negated | a-negated+b-negated | a-changed ...
+  tag       an operation specific refinement computed from the operands by the model (see tag_* functions), "-" if none
 """
 import math
 import random
@@ -15,6 +30,8 @@ from ..sexpr import Sym
 
 FIXMAX = (1 << 62) - 1          # chibi fixnums on 64-bit: 63 bits incl. sign
 FIXMIN = -(1 << 62)
+W = 64
+ONES = (1 << W) - 1
 IMPORTS = "(import (scheme base) (scheme write) (scheme inexact) (scheme process-context) (only (chibi) fixnum?))"
 
 
@@ -45,6 +62,10 @@ def klass(v):
         return ("-" if v < 0 else "+") + "ratio"
     v = int(v)
     s = "-" if v < 0 else "+"
+    if v == FIXMIN:
+        return "fixmin"              # the one fixnum whose negation is not a fixnum
+    if v == FIXMAX + 1:
+        return "fixmax+1"            # the one bignum whose negation is a fixnum
     if FIXMIN <= v <= FIXMAX:
         if v in (0,):
             return "zero"
@@ -73,6 +94,33 @@ def rnd_rat(rng):
         d = rnd_int(rng)
         if d != 0:
             return Fraction(rnd_int(rng), d)
+
+
+def rnd_word(rng, top=False):
+    r = rng.random()
+    if r < 0.15:
+        return ONES
+    if r < 0.3:
+        return 0 if not top else 1
+    if r < 0.4:
+        return 1
+    if r < 0.5:
+        return 1 << 63
+    if r < 0.6:
+        return rng.choice([(1 << 32) - 1, 1 << 32, (1 << 32) + 1, ONES - 1, (1 << 63) - 1, (1 << 63) + 1])
+    if r < 0.75:
+        return rng.getrandbits(rng.choice([1, 8, 31, 32, 33])) or 1
+    return rng.getrandbits(64) or 1
+
+
+def rnd_words(rng, n):
+    """n-word magnitude from word patterns (top word non-zero)."""
+    v = 0
+    for i in range(n):
+        v |= rnd_word(rng, top=(i == n - 1)) << (W * i)
+    if v >> (W * (n - 1)) == 0:
+        v |= 1 << (W * (n - 1))
+    return v
 
 
 def lit(v):
@@ -124,32 +172,77 @@ def tostr(n, r):
     return ("-" if n < 0 else "") + "".join(reversed(s))
 
 
+def tostr_rat(f, r):
+    f = Fraction(f)
+    if f.denominator == 1:
+        return tostr(f.numerator, r)
+    return tostr(f.numerator, r) + "/" + tostr(f.denominator, r)
+
+
 def sbool(b):
     return True if b else False
 
 
-# each op: name -> (arity kinds, function(rng, a, b) -> (expr using a b, expected python value) or None)
+def in_fix(v):
+    return FIXMIN <= v <= FIXMAX
+
+
+def tag_compare(vals):
+    """Comparisons involving a non-integer go through sexp_ratio_compare: cross products n1*d2, n2*d1 are compared
+    with sexp_compare.  The tag says whether both products are fixnums whose difference is not a fixnum."""
+    fs = [Fraction(v) for v in vals]
+    for x, y in zip(fs, fs[1:]):
+        if x.denominator == 1 and y.denominator == 1:
+            continue
+        p, q = x.numerator * y.denominator, y.numerator * x.denominator
+        if in_fix(p) and in_fix(q) and not (in_fix(p - q) and in_fix(q - p)):
+            return "fixnum-cross-products-differ-by-more-than-a-fixnum"
+    return "-"
+
+
+def tag_radix(r, txt):
+    if r <= 16:
+        return "radix<=16"
+    if any(ch in "ghijklmnopqrstuvwxyz" for ch in txt.lower()):
+        return "radix>16,digit>f"
+    return "radix>16,digits<=f"
+
+
+def rnd_radix(rng):
+    return rng.choice([2, 3, 7, 8, 10, 16, 36, rng.randrange(2, 37)])
+
+
+NARY = ("+n", "*n", "<n", "=n", "maxn", "minn", "gcdn", "lcmn")
+
+
 def gen_case(rng, op):
-    """Returns dict(expr, expect, a, b, sig) or None when the drawn operands are outside the domain."""
-    a = b = None
+    """Returns dict(op, expr, expect, a, b, c, used, tag) or None when the drawn operands are outside the domain."""
     ints = True
     if op in ("+", "-", "*", "/", "<", "<=", "=", ">", ">=", "min", "max", "abs", "numerator", "denominator",
               "floor", "ceiling", "round", "truncate", "zero?", "positive?", "negative?", "exact->inexact->exact",
-              "number->string10"):
+              "number->string10", "+n", "*n", "<n", "=n", "maxn", "minn", "neg", "recip", "number->string-ratio",
+              "string->number-ratio"):
         if rng.random() < 0.35:
             ints = False
     a = rnd_int(rng) if ints or rng.random() < 0.5 else rnd_rat(rng)
     b = rnd_int(rng) if ints or rng.random() < 0.5 else rnd_rat(rng)
+    c = rnd_int(rng) if ints or rng.random() < 0.5 else rnd_rat(rng)
     if rng.random() < 0.08:
         b = a
     if rng.random() < 0.05 and isinstance(a, int) and isinstance(b, int) and b != 0:
         a = a * b + rng.choice([-1, 0, 1])            # exact multiples and neighbours
-    fa, fb = Fraction(a), Fraction(b)
+    return build_case(rng, op, a, b, c)
+
+
+def build_case(rng, op, a, b, c=0):
+    fa, fb, fc = Fraction(a), Fraction(b), Fraction(c)
     ia = int(a) if fa.denominator == 1 else None
     ib = int(b) if fb.denominator == 1 else None
-    two = True
+    ic = int(c) if fc.denominator == 1 else None
+    used = 2
     e = None
     x = None
+    tag = "-"
     if op == "+":
         x, e = "(+ a b)", fa + fb
     elif op == "-":
@@ -161,15 +254,52 @@ def gen_case(rng, op):
             return None
         x, e = "(/ a b)", fa / fb
     elif op == "neg":
-        x, e, two = "(- a)", -fa, False
+        x, e, used = "(- a)", -fa, 1
     elif op == "recip":
         if fa == 0:
             return None
-        x, e, two = "(/ a)", 1 / fa, False
+        x, e, used = "(/ a)", 1 / fa, 1
     elif op == "+3":
         x, e = "(+ a b a)", fa + fb + fa
     elif op == "*3":
         x, e = "(* a b b)", fa * fb * fb
+    elif op == "+n":
+        x, e, used = "(+ a b c b)", fa + fb + fc + fb, 3
+    elif op == "*n":
+        if max(abs(v.numerator).bit_length() + v.denominator.bit_length() for v in (fa, fb, fc)) > 3000:
+            return None
+        x, e, used = "(* a b c)", fa * fb * fc, 3
+    elif op == "<n":
+        vs = sorted([fa, fb, fc])
+        if rng.random() < 0.5:
+            fa, fb, fc = vs
+        x, e, used = "(< a b c)", sbool(fa < fb < fc), 3
+        tag = tag_compare([fa, fb, fc])
+    elif op == "=n":
+        r = rng.random()
+        if r < 0.4:
+            fb = fc = fa
+        elif r < 0.6:
+            fb = fa
+        x, e, used = "(= a b c)", sbool(fa == fb == fc), 3
+        tag = tag_compare([fa, fb, fc])
+    elif op in ("maxn", "minn"):
+        f = max if op == "maxn" else min
+        x, e, used = "(%s a b c)" % op[:3], f(fa, fb, fc), 3
+        # (max a b c) compares (> b a) then (> c hi): every pair may be compared
+        tag = tag_compare([fa, fb, fc, fa])
+    elif op in ("gcdn", "lcmn"):
+        if ia is None or ib is None or ic is None:
+            return None
+        if op == "gcdn":
+            x, e, used = "(gcd a b c)", math.gcd(ia, ib, ic), 3
+        else:
+            if max(abs(ia), abs(ib), abs(ic)).bit_length() > 2000:
+                return None
+            l = 0 if 0 in (ia, ib, ic) else math.lcm(ia, ib, ic)
+            x, e, used = "(lcm a b c)", l, 3
+            if (ia == 0 and ib == 0) or (l == 0 and ic == 0 and (ia == 0 or ib == 0)):
+                tag = "lcm2-of-zero-and-zero"
     elif op in ("quotient", "truncate-quotient"):
         if ib in (None, 0) or ia is None:
             return None
@@ -203,8 +333,10 @@ def gen_case(rng, op):
         if ia is None or ib is None:
             return None
         x, e = "(lcm a b)", (abs(ia * ib) // math.gcd(ia, ib) if ia and ib else 0)
+        if ia == 0 and ib == 0:
+            tag = "lcm2-of-zero-and-zero"
     elif op == "abs":
-        x, e, two = "(abs a)", abs(fa), False
+        x, e, used = "(abs a)", abs(fa), 1
     elif op == "expt":
         k = rng.randrange(0, 40)
         if rng.random() < 0.2:
@@ -213,86 +345,116 @@ def gen_case(rng, op):
             return None
         if fa == 0 and k < 0:
             return None
-        b, fb, ib = k, Fraction(k), k
+        fb = Fraction(k)
         x, e = "(expt a b)", fa ** k
     elif op == "exact-integer-sqrt":
         if ia is None:
             return None
         ia = abs(ia)
-        a, fa = ia, Fraction(ia)
+        fa = Fraction(ia)
         s = math.isqrt(ia)
-        x, e, two = "(call-with-values (lambda () (exact-integer-sqrt a)) list)", [s, ia - s * s], False
+        x, e, used = "(call-with-values (lambda () (exact-integer-sqrt a)) list)", [s, ia - s * s], 1
     elif op == "square-sqrt":
         if ia is None:
             return None
-        s = abs(ia)
-        a, fa, ia = s * s, Fraction(s * s), s * s
-        x, e, two = "(call-with-values (lambda () (exact-integer-sqrt a)) list)", [s, 0], False
+        s = abs(ia) + rng.choice([0, 0, 1])
+        d = rng.choice([0, 0, -1, 1, 2 * s])          # s^2, s^2-1, s^2+1, (s+1)^2-1
+        v = s * s + d
+        if v < 0:
+            return None
+        fa = Fraction(v)
+        s2 = math.isqrt(v)
+        x, e, used = "(call-with-values (lambda () (exact-integer-sqrt a)) list)", [s2, v - s2 * s2], 1
     elif op == "numerator":
-        x, e, two = "(numerator a)", fa.numerator, False
+        x, e, used = "(numerator a)", fa.numerator, 1
     elif op == "denominator":
-        x, e, two = "(denominator a)", fa.denominator, False
+        x, e, used = "(denominator a)", fa.denominator, 1
     elif op == "floor":
-        x, e, two = "(floor a)", math.floor(fa), False
+        x, e, used = "(floor a)", math.floor(fa), 1
     elif op == "ceiling":
-        x, e, two = "(ceiling a)", math.ceil(fa), False
+        x, e, used = "(ceiling a)", math.ceil(fa), 1
     elif op == "round":
-        x, e, two = "(round a)", round(fa), False
+        x, e, used = "(round a)", round(fa), 1
     elif op == "truncate":
-        x, e, two = "(truncate a)", math.trunc(fa), False
+        x, e, used = "(truncate a)", math.trunc(fa), 1
     elif op in ("<", "<=", "=", ">", ">="):
         pyop = {"<": fa < fb, "<=": fa <= fb, "=": fa == fb, ">": fa > fb, ">=": fa >= fb}[op]
         x, e = "(%s a b)" % op, sbool(pyop)
+        tag = tag_compare([fa, fb])
     elif op == "<3":
         x, e = "(< a b a)", False
+        tag = tag_compare([fa, fb, fa])
     elif op == "=3":
         x, e = "(= a b a)", sbool(fa == fb)
+        tag = tag_compare([fa, fb, fa])
     elif op == "min":
         x, e = "(min a b)", min(fa, fb)
+        tag = tag_compare([fa, fb])
     elif op == "max":
         x, e = "(max a b)", max(fa, fb)
+        tag = tag_compare([fa, fb])
     elif op == "zero?":
-        x, e, two = "(zero? a)", sbool(fa == 0), False
+        x, e, used = "(zero? a)", sbool(fa == 0), 1
+        tag = tag_compare([fa, 0])
     elif op == "positive?":
-        x, e, two = "(positive? a)", sbool(fa > 0), False
+        x, e, used = "(positive? a)", sbool(fa > 0), 1
+        tag = tag_compare([fa, 0])
     elif op == "negative?":
-        x, e, two = "(negative? a)", sbool(fa < 0), False
+        x, e, used = "(negative? a)", sbool(fa < 0), 1
+        tag = tag_compare([fa, 0])
     elif op == "odd?":
         if ia is None:
             return None
-        x, e, two = "(odd? a)", sbool(ia % 2 == 1), False
+        x, e, used = "(odd? a)", sbool(ia % 2 == 1), 1
     elif op == "even?":
         if ia is None:
             return None
-        x, e, two = "(even? a)", sbool(ia % 2 == 0), False
+        x, e, used = "(even? a)", sbool(ia % 2 == 0), 1
     elif op == "number->string":
         if ia is None:
             return None
-        r = rng.choice([2, 3, 7, 8, 10, 16, 36, rng.randrange(2, 37)])
-        b, fb, ib = r, Fraction(r), r
+        r = rnd_radix(rng)
+        fb = Fraction(r)
         x, e = "(number->string a b)", tostr(ia, r)
+    elif op == "number->string-ratio":
+        r = rnd_radix(rng)
+        fb = Fraction(r)
+        x, e = "(number->string a b)", tostr_rat(fa, r)
     elif op == "number->string10":
-        x, e, two = "(number->string a)", lit(fa), False
+        x, e, used = "(number->string a)", lit(fa), 1
     elif op == "string->number":
         if ia is None:
             return None
-        r = rng.choice([2, 3, 7, 8, 10, 16, 36, rng.randrange(2, 37)])
+        r = rnd_radix(rng)
         if r > 16 and rng.random() < 0.5:
-            r = 16                               # radix > 16 may be rejected; keep most traffic in the common range
+            r = 16                               # keep most traffic in the common range
         txt = tostr(ia, r)
         if rng.random() < 0.3:
             txt = txt.upper()
-        b, fb, ib = r, Fraction(r), r
-        x, e = "(string->number %s b)" % ('"%s"' % txt), ia
-        a, fa, ia = 0, Fraction(0), 0            # operand a unused
+        if ia >= 0 and rng.random() < 0.1:
+            txt = "+" + txt
+        fb = Fraction(r)
+        x, e = '(string->number "%s" b)' % txt, ia     # operand a is bound but not used by the expression
+        tag = tag_radix(r, txt)
     elif op == "string->number-ratio":
-        txt = "%d/%d" % (fa.numerator * 3, fa.denominator * 3) if fa.denominator != 1 or rng.random() < .5 else lit(fa)
-        x, e, two = '(string->number "%s")' % txt, fa, False
-        a, fa, ia = 0, Fraction(0), 0
+        r = rng.choice([10, 10, 2, 8, 16, 16, rng.randrange(2, 17)])
+        k = rng.choice([1, 1, 3, 1 << 64])
+        n, d = fa.numerator * k, fa.denominator * k
+        txt = tostr(n, r) + "/" + tostr(d, r) if fa.denominator != 1 or rng.random() < .5 else tostr(n // k, r)
+        fb = Fraction(r)
+        x, e = '(string->number "%s" b)' % txt, fa
+        if r == 10:
+            tag = "radix10"
+        elif "/" not in txt:
+            tag = "integer-text"
+        else:
+            # chibi: numerator digits accumulate in a fixnum and switch to sexp_read_bignum on overflow
+            tag = "radix!=10," + ("bignum-numerator" if not in_fix(abs(n)) else "fixnum-numerator")
     elif op == "exact->inexact->exact":
         # exactly representable: m * 2^k, |m| < 2^53
         m = rng.getrandbits(rng.choice([1, 10, 52, 53])) * rng.choice([1, -1])
-        k = rng.choice([0, 1, 10, 11, 63, 64, 100, 500, 970, -1, -10, -52, -100, -1000, -1074])
+        k = rng.choice([0, 1, 10, 11, 63, 64, 100, 500, 970, -1, -10, -52, -100, -1000, -1021, -1022, -1023, -1024,
+                        -1025, -1030, -1074])
         v = Fraction(m) * (Fraction(2) ** k)
         if v != 0 and not (Fraction(2) ** -1074 <= abs(v) < Fraction(2) ** 1024):
             return None
@@ -300,38 +462,122 @@ def gen_case(rng, op):
             # subnormal: needs m*2^k to be a multiple of 2^-1074
             if (v / Fraction(2) ** -1074).denominator != 1:
                 return None
-        a, fa = v, v
-        ia = int(v) if v.denominator == 1 else None
-        x, e, two = "(exact (inexact a))", v, False
+        fa = v
+        x, e, used = "(exact (inexact a))", v, 1
+        # sexp_ratio_to_double divides (double)num by (double)den
+        tag = "denominator>=2^1024" if v.denominator >= (1 << 1024) else "denominator<2^1024"
     elif op == "inexact=":
         m = rng.getrandbits(53) * rng.choice([1, -1])
         k = rng.choice([0, 1, 10, 64, 200, 900])
         v = m * (1 << k)
-        a, fa, ia = v, Fraction(v), v
-        x, e, two = "(= (inexact a) a)", True, False
+        fa = Fraction(v)
+        x, e, used = "(= (inexact a) a)", True, 1
     elif op == "exact-of-double":
-        m = rng.getrandbits(rng.choice([1, 20, 53])) * rng.choice([1, -1])
-        k = rng.choice([0, 1, -1, -5, -30, -52, -200, -1000, 10, 62, 63, 64, 300, 900])
+        m = rng.getrandbits(rng.choice([1, 1, 20, 53])) * rng.choice([1, -1])
+        k = rng.choice([0, 1, -1, -5, -30, -52, -200, -1000, -1022, -1074, 10, 61, 62, 63, 64, 300, 900])
         v = Fraction(m) * (Fraction(2) ** k)
-        if v != 0 and not (Fraction(2) ** -1022 <= abs(v) < Fraction(2) ** 1000):
+        if v != 0 and not (Fraction(2) ** -1074 <= abs(v) < Fraction(2) ** 1000):
             return None
-        a, fa, ia = m, Fraction(m), m
-        b, fb, ib = k, Fraction(k), k
+        fa = Fraction(m)
+        fb = Fraction(k)
+        # (expt 2. k) is a power of two (exact in binary floating point, subnormals included) and |m| < 2^53,
+        # so the product is exact whenever m*2^k is representable, which holds for all k >= -1074 here
         x, e = "(exact (* (inexact a) (expt 2. b)))", v
+        tag = "result:" + klass(v)
     else:
         raise ValueError(op)
-    if not two:
-        b, fb = 0, Fraction(0)
-    return {"op": op, "expr": x, "expect": e, "a": fa if not isinstance(a, int) else a,
-            "b": fb if not isinstance(b, int) else b, "two": two}
+    if used < 3:
+        fc = Fraction(0)
+    if used < 2:
+        fb = Fraction(0)
+    return {"op": op, "expr": x, "expect": e, "a": canon(fa), "b": canon(fb), "c": canon(fc), "used": used, "tag": tag}
 
 
 OPS = ["+", "-", "*", "/", "neg", "recip", "+3", "*3", "quotient", "remainder", "modulo", "truncate-quotient",
        "truncate-remainder", "floor-quotient", "floor-remainder", "floor/", "truncate/", "gcd", "lcm", "abs", "expt",
        "exact-integer-sqrt", "square-sqrt", "numerator", "denominator", "floor", "ceiling", "round", "truncate",
        "<", "<=", "=", ">", ">=", "<3", "=3", "min", "max", "zero?", "positive?", "negative?", "odd?", "even?",
-       "number->string", "number->string10", "string->number", "string->number-ratio", "exact->inexact->exact",
-       "inexact=", "exact-of-double"]
+       "number->string", "number->string10", "number->string-ratio", "string->number", "string->number-ratio",
+       "exact->inexact->exact", "inexact=", "exact-of-double", "+n", "*n", "<n", "=n", "maxn", "minn", "gcdn", "lcmn"]
+
+DIV_OPS = ["quotient", "remainder", "modulo", "floor/", "truncate/", "/", "gcd", "floor-quotient", "floor-remainder",
+           "truncate-quotient", "truncate-remainder", "lcm"]
+
+
+def gen_division(rng):
+    """a = q*d + r with word patterns that steer sexp_bignum_quot_rem: the estimate is (top two words of a) /
+    (top two words of d) -- shifted by half a word when both top words are below 2^32 -- or, when that is 0,
+    (top two words of a) / (top word of d); an overshoot flips the sign of the running remainder."""
+    dl = rng.choice([1, 2, 2, 2, 3, 3, 3, 4, 5, 8])
+    d = rnd_words(rng, dl)
+    style = rng.random()
+    if style < 0.25 and dl >= 2:
+        # top words of a equal the top words of d: estimate 1, true quotient digit 0 or 1 depending on low words
+        low = W * rng.randrange(1, dl)
+        hi = d >> low << low
+        a = (hi | rng.getrandbits(low)) if rng.random() < 0.5 else (hi | ((1 << low) - 1 if rng.random() < 0.5 else 0))
+        a = (a << (W * rng.randrange(0, 3))) + rng.choice([0, 0, 1, ONES])
+    elif style < 0.45:
+        # quotient with extreme words: all ones / zero / one
+        q = rnd_words(rng, rng.choice([1, 1, 2, 2, 3, 4]))
+        r = rng.choice([0, 1, d - 1, d - 2 if d > 2 else 0, rng.randrange(d)])
+        a = q * d + r
+    elif style < 0.6 and dl >= 3:
+        # both top words below 2^32 (half-word refinement branch)
+        d = (d & ((1 << (W * (dl - 1))) - 1)) | ((rng.getrandbits(rng.choice([1, 16, 31, 32])) or 1) << (W * (dl - 1)))
+        q = rnd_words(rng, rng.choice([1, 2, 3]))
+        a = q * d + rng.choice([0, 1, d - 1, rng.randrange(d)])
+        if rng.random() < 0.5:
+            al = (a.bit_length() + W - 1) // W
+            a = (a & ((1 << (W * (al - 1))) - 1)) | ((rng.getrandbits(rng.choice([1, 16, 31, 32])) or 1) << (W * (al - 1)))
+    elif style < 0.8 and dl >= 2:
+        # a's top two words just below d's top two words: first estimate is 0, falls back to the one-word divisor
+        al = dl + rng.choice([1, 1, 2, 3])
+        top2 = d >> (W * (dl - 2))
+        t = max(1, top2 - rng.choice([1, 1, 2, 1 << 32, 1 << 63, rng.randrange(1, top2 + 1)]))
+        a = (t << (W * (al - 2))) | rng.getrandbits(W * (al - 2))
+        if rng.random() < 0.3:
+            a |= (1 << (W * (al - 2))) - 1
+    else:
+        # q*d +- 1 (exact multiples and their neighbours), d of special form 2^(64k) +- 1
+        if rng.random() < 0.5:
+            d = (1 << (W * rng.randrange(1, 5))) + rng.choice([-1, 1, 0])
+        q = rnd_words(rng, rng.choice([1, 2, 3, 5]))
+        a = q * d + rng.choice([-1, 0, 1])
+    if d == 0:
+        d = 1
+    if rng.random() < 0.5:
+        a = -a
+    if rng.random() < 0.5:
+        d = -d
+    return build_case(rng, rng.choice(DIV_OPS), a, d)
+
+
+def gen_multiplication(rng):
+    al = rng.choice([1, 2, 2, 3, 3, 4, 5, 6, 7, 8, 9, 12, 14])
+    bl = rng.choice([1, 2, 2, 3, 3, 4, 5, 6, 7, 8]) if rng.random() < 0.7 else al
+    a = rnd_words(rng, al) * rng.choice([1, -1])
+    b = rnd_words(rng, bl) * rng.choice([1, -1])
+    op = rng.choice(["*", "*", "*", "*3", "*n", "expt", "lcm", "square-sqrt", "+", "-"])
+    if op == "expt" and al > 6:
+        op = "*"
+    return build_case(rng, op, a, b, rng.choice([a, b, -1, 1 << 64, ONES]))
+
+
+def gen_ratio_compare(rng):
+    """p/q vs r/s with cross products p*s and r*q close to the fixnum limits."""
+    while True:
+        q = rng.choice([1, 2, 3, 5, 7, 1 << 10, 1048577, 1 << 45, (1 << 31) - 1])
+        s = rng.choice([1, 2, 3, 5, 7, 1 << 17, 1048577, (1 << 31) - 1])
+        t1 = rng.choice([FIXMIN, FIXMIN + 1, FIXMAX, -(1 << 61), (1 << 61) + 5, -(1 << 61) - 9, 1 << 60, rng.randrange(FIXMIN, FIXMAX)])
+        t2 = rng.choice([0, 1, -1, FIXMAX, FIXMIN, (1 << 61) + 3, -(1 << 61) - 3, rng.randrange(FIXMIN, FIXMAX)])
+        p = tdiv(t1, s) + rng.choice([0, 0, 1, -1])
+        r = tdiv(t2, q) + rng.choice([0, 0, 1, -1])
+        a, b = Fraction(p, q), Fraction(r, s)
+        if a.denominator == 1 and b.denominator == 1:
+            continue
+        op = rng.choice(["<", "<=", "=", ">", ">=", "min", "max", "positive?", "negative?", "zero?", "<n", "maxn", "minn", "=n", "<3"])
+        return build_case(rng, op, a, b, rng.choice([a, b, 0, Fraction(1, 2)]))
 
 
 def expected_lit(e):
@@ -368,41 +614,92 @@ def same(r, e):
 
 
 def is_fix(e):
+    if isinstance(e, (bool, str)):
+        return False
     f = Fraction(e)
     return f.denominator == 1 and FIXMIN <= int(f) <= FIXMAX
 
 
-def make_cases(rng, n):
-    out = []
-    i = 0
-    tries = 0
-    while len(out) < n and tries < n * 20:
-        tries += 1
-        op = OPS[(i + rng.randrange(len(OPS))) % len(OPS)] if rng.random() < 0.5 else rng.choice(OPS)
-        c = gen_case(rng, op)
-        if c is None:
+def finish_case(rng, c, cid):
+    ra, rta = route(rng, c["a"])
+    rb, rtb = route(rng, c["b"])
+    rc, rtc = (route(rng, c["c"]) if c["used"] >= 3 else ("0", "literal"))
+    e = c["expect"]
+    if isinstance(e, (bool, str)) or isinstance(e, list):
+        canonchk = "(equal? r %s)" % expected_lit(e)
+        fixchk = "#f" if not isinstance(e, list) else "(map fixnum? r)"
+    else:
+        canonchk = "(eqv? r %s)" % expected_lit(e)
+        fixchk = "(fixnum? r)"
+    form = ("(%%case %s (let* ((a %s) (b %s) (c %s) (r %s)) (list r %s %s a b c)))"
+            % (cid, ra, rb, rc, c["expr"], fixchk, canonchk))
+    c.update(id=cid, form=form, routes=(rta, rtb, rtc))
+    return c
+
+
+# ---- lattice cross product (thorough): one case per pair, several operations evaluated in sequence -----------
+
+MULTI = ["+", "-", "*", "quotient", "remainder", "modulo", "gcd", "<", "=", ">="]
+
+
+def multi_case(a, b, cid):
+    """All of MULTI on one lattice pair; let* keeps the evaluation order fixed.  `/` is left to single-op cases
+    because it is known to mutate operands, which would contaminate the later sub-results."""
+    subs = []
+    for op in MULTI:
+        if op in ("quotient", "remainder", "modulo") and b == 0:
             continue
-        i += 1
-        ra, rta = route(rng, c["a"])
-        rb, rtb = route(rng, c["b"])
-        cid = "k%d" % len(out)
-        e = c["expect"]
-        if isinstance(e, (bool, str)) or isinstance(e, list):
-            canonchk = "(equal? r %s)" % expected_lit(e)
-            fixchk = "#f" if not isinstance(e, list) else "(map fixnum? r)"
+        if op == "+":
+            e = a + b
+        elif op == "-":
+            e = a - b
+        elif op == "*":
+            e = a * b
+        elif op == "quotient":
+            e = tdiv(a, b)
+        elif op == "remainder":
+            e = a - b * tdiv(a, b)
+        elif op == "modulo":
+            e = a % b
+        elif op == "gcd":
+            e = math.gcd(a, b)
+        elif op == "<":
+            e = sbool(a < b)
+        elif op == "=":
+            e = sbool(a == b)
         else:
-            canonchk = "(eqv? r %s)" % expected_lit(e)
-            fixchk = "(fixnum? r)"
-        form = ("(%%case %s (let* ((a %s) (b %s) (r %s)) (list r %s %s a b)))"
-                % (cid, ra, rb, c["expr"], fixchk, canonchk))
-        c.update(id=cid, form=form, routes=(rta, rtb))
-        out.append(c)
-    return out
+            e = sbool(a >= b)
+        subs.append((op, e))
+    binds = " ".join("(r%d (%s a b))" % (i, op) for i, (op, _) in enumerate(subs))
+    rl = "(list %s)" % " ".join("r%d" % i for i in range(len(subs)))
+    exp = [e for _, e in subs]
+    form = ("(%%case %s (let* ((a %d) (b %d) (c 0) %s (r %s)) (list r (map fixnum? r) (equal? r %s) a b c)))"
+            % (cid, a, b, binds, rl, expected_lit(exp)))
+    return {"op": "multi", "subops": [op for op, _ in subs], "expr": rl, "expect": exp, "a": a, "b": b, "c": 0, "used": 2,
+            "tag": "-", "id": cid, "form": form, "routes": ("literal", "literal", "literal")}
+
+
+def case_sig(c):
+    return (c["op"], klass(c["a"]), klass(c["b"]) if c["used"] >= 2 else "-",
+            klass(c["c"]) if c["used"] >= 3 else "-", c["tag"])
+
+
+def operand_state(c, a2, b2, c2):
+    st = []
+    for name, want, got in (("a", c["a"], a2), ("b", c["b"], b2), ("c", c["c"], c2)):
+        if same(got, want):
+            continue
+        if not isinstance(got, bool) and isinstance(got, (int, Fraction)) and Fraction(got) == -Fraction(want):
+            st.append(name + "-negated")
+        else:
+            st.append(name + "-changed")
+    return "+".join(st) if st else "intact"
 
 
 def judge(rep, c, res):
     """Compare one observation with the model; record violation with a stable signature."""
-    sig0 = {"op": c["op"], "a": klass(c["a"]), "b": klass(c["b"]) if c["two"] else "-"}
+    sig0 = {"op": c["op"], "a": klass(c["a"]), "b": klass(c["b"]) if c["used"] >= 2 else "-",
+            "c": klass(c["c"]) if c["used"] >= 3 else "-", "tag": c["tag"], "operands": "unknown"}
     wit = {"form": c["form"], "expected": repr(c["expect"]), "routes": c["routes"]}
     if res is None or res.status in ("missing",):
         rep.inconc("no-output", c["id"])
@@ -416,7 +713,7 @@ def judge(rep, c, res):
         return
     try:
         data = res.data()
-    except Exception as ex:                      # unparsable output is an observation too
+    except Exception:                            # unparsable output is an observation too
         wit["got"] = res.text[:500]
         rep.violation(dict(sig0, mode="unparsable-output"), wit)
         return
@@ -429,15 +726,26 @@ def judge(rep, c, res):
     if isinstance(obs, list) and len(obs) == 2 and obs[0] == Sym("err"):
         rep.violation(dict(sig0, mode="error"), wit)
         return
-    if not (isinstance(obs, list) and len(obs) == 5):
+    if not (isinstance(obs, list) and len(obs) == 6):
         rep.violation(dict(sig0, mode="unparsable-output"), wit)
         return
-    r, fixp, canonp, a2, b2 = obs
+    r, fixp, canonp, a2, b2, c2 = obs
+    sig0["operands"] = operand_state(c, a2, b2, c2)
     e = canon(c["expect"])
+    if c["op"] == "multi":
+        # name the first sub-operation that is wrong, so that signatures agree with the single-operation cases
+        if isinstance(r, list) and len(r) == len(e):
+            for i, sub in enumerate(c["subops"]):
+                if not same(r[i], e[i]):
+                    rep.violation(dict(sig0, op=sub, mode="wrong-result", via="lattice-multi"), wit)
+                    return
+                if isinstance(fixp, list) and len(fixp) == len(e) and fixp[i] != is_fix(e[i]):
+                    rep.violation(dict(sig0, op=sub, mode="not-canonical-fixnum", via="lattice-multi"), wit)
+                    return
     if not same(r, e):
         rep.violation(dict(sig0, mode="wrong-result"), wit)
         return
-    if not same(a2, canon(c["a"])) or not same(b2, canon(c["b"])):
+    if sig0["operands"] != "intact":
         rep.violation(dict(sig0, mode="operand-mutated"), wit)
         return
     if not isinstance(e, (bool, str)):
@@ -454,35 +762,127 @@ def judge(rep, c, res):
         return
 
 
+def case_stream(rng, tier, n):
+    """Yields finished cases.  quick: n cases (70% random, 14% crafted division, 8% crafted multiplication,
+    8% crafted ratio comparisons); thorough: the same mix for n cases, then the lattice cross product."""
+    made = 0
+    i = 0
+    tries = 0
+    while made < n and tries < n * 20:
+        tries += 1
+        r = rng.random()
+        if r < 0.70:
+            op = OPS[(i + rng.randrange(len(OPS))) % len(OPS)] if rng.random() < 0.5 else rng.choice(OPS)
+            c = gen_case(rng, op)
+            src = "random"
+        elif r < 0.84:
+            c = gen_division(rng)
+            src = "crafted-division"
+        elif r < 0.92:
+            c = gen_multiplication(rng)
+            src = "crafted-multiplication"
+        else:
+            c = gen_ratio_compare(rng)
+            src = "crafted-ratio-compare"
+        if c is None:
+            continue
+        i += 1
+        c["src"] = src
+        yield finish_case(rng, c, "k%d" % made)
+        made += 1
+    if tier == "thorough":
+        k = 0
+        for a in LAT:
+            for b in LAT:
+                c = multi_case(a, b, "m%d" % k)
+                c["src"] = "lattice-cross"
+                k += 1
+                yield c
+        # `/` over a sample of lattice pairs with a negative-free denominator sign mix
+        for a in LAT[::3]:
+            for b in LAT[1::3]:
+                c = build_case(rng, "/", a, b)
+                if c is None:
+                    continue
+                c["src"] = "lattice-div"
+                yield finish_case(rng, c, "d%d" % k)
+                k += 1
+
+
+def make_cases(rng, n):
+    """n finished cases of the quick mix (used by gc_workload below: C02 / C01 / C09 replay the same cases)."""
+    return list(case_stream(rng, "quick", n))
+
+
 def check(rep, tier, seed, variant="hooks", n=None, env_extra=None):
     rng = random.Random(seed * 7919 + 4)
     b = B.ensure(variant)
     rep.builds.add(variant)
     n = n or (40000 if tier == "quick" else 600000)
-    cs = make_cases(rng, n)
     env = {"CHIBI_VERIF_HEAPCHECK": 1}
     env.update(env_extra or {})
-    res, procs = C.run_batches(b, IMPORTS, "", [(c["id"], c["form"]) for c in cs], batch=1000,
-                               env_extra=env, timeout=120, heap="64M/512M")
-    for c in cs:
-        rep.case((c["op"], klass(c["a"]), klass(c["b"]) if c["two"] else "-"))
-        judge(rep, c, res.get(c["id"]))
-    for c in cs[:6]:
-        rep.sample({"form": c["form"], "expected": repr(c["expect"]), "observed": (res[c["id"]].text.strip()[:300] if c["id"] in res else None)})
-    heapfail = 0
-    for p in procs:
-        for l in p.log_lines("HEAPCHECK-FAIL"):
-            heapfail += 1
-            rep.violation({"op": "heapcheck", "mode": l.split()[1]}, {"line": l})
-        for d in p.log_kv("HEAPCHECK-SUMMARY"):
-            rep.count("heap_checks", d.get("runs", 0))
-            rep.count("heap_objects_checked", d.get("objects", 0))
+    nproc = 0
+    chunk = []
+    sampled = 0
+
+    def flush():
+        nonlocal nproc, sampled
+        if not chunk:
+            return
+        res, procs = C.run_batches(b, IMPORTS, "", [(c["id"], c["form"]) for c in chunk], batch=1000,
+                                   env_extra=env, timeout=180, heap="64M/512M")
+        for c in chunk:
+            rep.case(case_sig(c))
+            rep.count("cases_" + c["src"])
+            judge(rep, c, res.get(c["id"]))
+        for c in chunk[:max(0, 6 - sampled)]:
+            sampled += 1
+            rep.sample({"form": c["form"], "expected": repr(c["expect"]),
+                        "observed": (res[c["id"]].text.strip()[:300] if c["id"] in res else None)})
+        for p in procs:
+            for l in p.log_lines("HEAPCHECK-FAIL"):
+                rep.violation({"op": "heapcheck", "mode": l.split()[1]}, {"line": l})
+            for d in p.log_kv("HEAPCHECK-SUMMARY"):
+                rep.count("heap_checks", d.get("runs", 0))
+                rep.count("heap_objects_checked", d.get("objects", 0))
+        nproc += len(procs)
+        del chunk[:]
+
+    for c in case_stream(rng, tier, n):
+        chunk.append(c)
+        if len(chunk) >= 48000:
+            flush()
+    flush()
     rep.extra["ops"] = len(OPS)
-    rep.extra["processes"] = len(procs)
-    rep.rule = ("seeded generator over %d operations; operands from the boundary lattice (fixnum limits, 2^k and 2^k+-1 up to "
-                "k=400, all-ones/zero interior words, exact multiples +-1) and random up to 4000 bits, integers and ratios, "
-                "each built by a random route (literal, add-sub, quotient with spare words, parsed); a case is non-trivial "
-                "by construction, distinct = (operation, class of a, class of b) with class = sign x {fix, fixedge, big1, "
-                "big2, bigN, ratio}" % len(OPS))
+    rep.extra["processes"] = nproc
+    rep.rule = ("seeded generators over %d operations (incl. n-ary + * < = max min gcd lcm): (1) random operands from the "
+                "boundary lattice (fixnum limits, 2^k and 2^k+-1 up to k=400, all-ones/zero interior words, exact "
+                "multiples +-1) and random up to 4000 bits, integers and ratios; (2) crafted division a=q*d+r steering "
+                "the quotient-estimate paths of sexp_bignum_quot_rem (equal leading words, leading words < 2^32, zero "
+                "estimate, overshoot); (3) crafted word-pattern products of 1..14 words (Karatsuba splits); (4) ratio "
+                "comparisons with cross products at the fixnum limits; thorough adds the full lattice cross product "
+                "(one multi-operation case per pair).  Operands are built by a random route (literal, add-sub, quotient "
+                "with spare words, parsed).  A case is non-trivial by construction; distinct = (operation, class of a, "
+                "b, c, tag) with class = sign x {fix, fixedge, fixmin, fixmax+1, big1, big2, bigN, ratio}" % len(OPS))
     rep.assumptions = ["Python int/Fraction/math.isqrt are correct", "the observation reader (vf/sexpr.py) is correct",
                        "chibi's `write` of exact numbers and `fixnum?` are used to observe results (a defect there shows as a mismatch, not as silence)"]
+
+
+def gc_workload(rng, n):
+    """Case files + judge for reuse by C02 (forced collections), C01 (asan) and C09 (cll build)."""
+    from .. import report
+    cs = make_cases(rng, n)
+    byid = {c["id"]: c for c in cs}
+    findings, _ = report.load_findings("C04")
+
+    def judge_one(rep, cid, res):
+        judge(rep, byid[cid], res)
+
+    def known(sig):
+        return any(report._match(f["match"], sig) for f in findings)
+
+    def classify(cid):
+        return byid[cid]["op"]
+
+    return {"imports": IMPORTS, "header": "", "cases": [(c["id"], c["form"]) for c in cs], "judge": judge_one,
+            "known": known, "classify": classify, "batch": 100, "heap": "64M/512M", "timeout": 180}
